@@ -4,7 +4,7 @@ for f in sys.argv[1:]:
     r=json.load(open(f))
     print(f)
     for c in r['plan']['clients']:
-        print('  ',c.get('name','client'), [ (it.get('op') or ' '.join(it.get('a',[]))) for it in (c['items'] or [])])
+        print('  ',c.get('name','client'), [ (it.get('op') or ' '.join((x if isinstance(x,str) else 'hex:'+x['x'][:16]) for x in it.get('a',[]))) for it in (c['items'] or [])])
     print('  knobs',r['plan']['knobs'])
     print('  ->', r['violation']['msg'][:600])
     print('\n'.join('   '+e for e in r.get('events',[]) if (' C ' in e and ('send' in e or 'adv' in e or 'close' in e or 'emu' in e)) or ' R ' in e or ' A ' in e))
